@@ -1,5 +1,6 @@
 """C08 - queries never change their arguments or depend on call history."""
 import copy
+import json
 import random
 
 from hypothesis import strategies as st
@@ -494,6 +495,57 @@ def container_strategy():
     )
 
 
+_RELOAD_SCRIPT = r"""
+import json, sys, warnings
+warnings.simplefilter('ignore')
+import peptacular as pt
+from peptacular.mods.mod_db_setup import UNIMOD_DB, PSI_MOD_DB, XLMOD_DB, MONOSACCHARIDES_DB
+def state():
+    out = [(len(db.id_map), len(db.name_map), len(db.synonym_map), len(db.names_sorted)) for db in (UNIMOD_DB, PSI_MOD_DB, XLMOD_DB, MONOSACCHARIDES_DB)]
+    for q in ('PEPT[Phospho]IDE', 'A[MOD:00046]', 'A[XLMOD:02001]', 'N[Glycan:HexA2]', 'N[Glycan:Fucose1NeuAc1]'):
+        try:
+            out.append(round(pt.mass(q), 6))
+        except Exception as e:
+            out.append(type(e).__name__)
+    return out
+rec = {'before': state(), 'error': None, 'after_each': []}
+for _ in range(int(sys.argv[1])):
+    try:
+        pt.reload_all_databases()
+    except Exception as e:
+        rec['error'] = type(e).__name__ + ': ' + str(e)[:120]
+    rec['after_each'].append(state())
+print(json.dumps(rec))
+"""
+
+
+def check_reload(case) -> Result:
+    """re-reading the bundled vocabularies (reload_all_databases) must leave the process-wide databases as a fresh import has them:
+    every later query depends on them.  Run in a child process, because a failed reload would poison this worker."""
+    import subprocess
+    import sys
+    r = Result()
+    r.nontrivial = True
+    r.classes = ['reload-databases']
+    p = subprocess.run([sys.executable, '-W', 'ignore', '-c', _RELOAD_SCRIPT, str(case['times'])], capture_output=True, text=True, timeout=600)
+    if p.returncode != 0 or not p.stdout.strip():
+        from pv.runner import HarnessError
+        raise HarnessError('reload child failed: ' + p.stderr[-500:])
+    rec = json.loads(p.stdout.strip().splitlines()[-1])
+    ctx = dict(times=case['times'], before=rec['before'])
+    if rec['error']:
+        r.fail('re-reading the bundled databases works', 'C08/reload-databases/raises', error=rec['error'], after=rec['after_each'][-1], **ctx)
+    elif any(a != rec['before'] for a in rec['after_each']):
+        r.fail('re-reading the bundled databases leaves them as a fresh import has them', 'C08/reload-databases/state-differs',
+               after=rec['after_each'], **ctx)
+    return r
+
+
+def reload_cases():
+    for t in (1, 2, 3):
+        yield {'times': t}
+
+
 def parts(tier):
     n_annot = 5 if tier == 'quick' else len(FIXED)
     n = 1500 if tier == 'quick' else 20000
@@ -503,4 +555,6 @@ def parts(tier):
              space=f'all {nreg}x{nreg} ordered pairs of registered query calls x {n_annot} feature-complete annotations'),
         Part(name='triples', kind='hyp', check_case=check_triple, strategy=triple_strategy, examples=n),
         Part(name='containers', kind='hyp', check_case=check_container, strategy=container_strategy, examples=max(300, n // 3)),
+        Part(name='reload-databases', kind='enum', check_case=check_reload, cases=reload_cases, exhaustive=True, shards=3,
+             space='reload_all_databases() called 1, 2 and 3 times in a fresh process'),
     ]
